@@ -17,7 +17,7 @@ def obligations(tier):
         for k0 in range(10):
             obs.append(Ob(f"C18.framing.5lines.first{k0}", "CH", "harness.h_lines", "framing_errors", 3000, {"VF_NLINES": 5, "VF_K0": k0},
                           funcs=("chartparse.chart.Chart._partition_lines_by_data_section",), bounds="all sequences of 5 lines with the first shape fixed"))
-    idxs = ["0,5", "7", "5", "0,0"] if tier == "quick" else ["0,5", "7", "5", "0,0", "6,7", "7,0", "5,6", "1,5", "4,4"]
+    idxs = ["0,5", "7", "5", "0,0", "0,7"] if tier == "quick" else ["0,5", "7", "5", "0,0", "6,7", "7,0", "5,6", "1,5", "4,4"]
     for ix in idxs:
         obs.append(Ob(f"C18.instrument_any[{ix}]", "CH", "harness.h_c18", "instrument_any", 1500, {"VF_IDX": ix, "VF_NSP": 1 if tier == "quick" else 2},
                       funcs=("chartparse.instrument.InstrumentTrack.from_chart_lines",), bounds="arbitrary tick order / duplicates / flag-only / forced-first; ints in [0,1e8)"))
@@ -32,6 +32,10 @@ def obligations(tier):
                   bounds="only MissingRequiredField escapes (Player2 values from the recogniser's SPEC)"))
     obs.append(Ob("C18.render.note", "CH", "harness.h_c18", "render_note_event", 1500, funcs=("chartparse.instrument.NoteEvent.__str__", "chartparse.event.Event.__str__", "chartparse.util.DictReprMixin.__repr__"),
                   bounds="32 notes x 4 sustain shapes x 3 states x star power, symbolic times"))
+    obs.append(Ob("C18.player2", "CH", "harness.h_extra", "player2_any", 300, funcs=("chartparse.metadata._field_parsing_specs['player2']",),
+                  bounds="any Player2 value raises only documented errors"))
+    obs.append(Ob("C18.many_unparsable", "CH", "harness.h_extra", "many_unparsable", 900, funcs=("chartparse.track.parse_data_from_chart_lines", "chartparse.exceptions.RegexNotMatchError"),
+                  bounds="blocks of 1..1000 unparsable lines of 8 shapes (braces included) at any position: no exception"))
     obs.append(Ob("C18.render.times", "CH", "harness.h_extra", "render_event_times", 300, funcs=("chartparse.event.Event.__str__",),
                   bounds="events at 11 representative instants up to the platform timedelta maximum"))
     obs.append(Ob("C18.render.chart", "CH", "harness.h_c18", "render_chart", 900, funcs=("chartparse.chart.Chart.__str__", "chartparse.util.DictReprTruncatedSequencesMixin.__repr__",
